@@ -103,6 +103,11 @@ def optionOK (apiKey : Nat) (option : String) (apiVersion : Int) (arrived : Bool
   | some since => arrived == decide (since ≤ apiVersion)
   | none => true
 
+/-- the address a client has to dial for a broker the metadata lists as (host, port): `host:port`, with the host in
+brackets when it is an IPv6 literal (contains a colon; RFC 3986 §3.2.2 — otherwise host and port cannot be told apart) -/
+def hostPort (host : String) (port : Int) : String :=
+  if host.contains ':' || host.contains '%' then s!"[{host}]:{port}" else s!"{host}:{port}"
+
 /-! ### leader clause (monitor over a plain description of the cluster) -/
 
 /-- cluster facts as the fake cluster holds them: partition → leader -/
